@@ -60,9 +60,11 @@ CHECKS = {
     "C17": ("exploration", "3.C17",
             "Swapper client swaps any two slots of each kind (same, adjacent, sharing a super-entity, deferred-deleted, first/last) under every incidence subset; the model transposes two slots and the SUT must equal it exactly (no renumbering fallback): definitions, flags, every property incl. side-by-side half-entity values; swap twice == identity is implied by the model and checked op by op.",
             "Incidence caches are checked by C01's battery in the C01/C12 checks, not here."),
+    "C20": ("exploration", "2.9 3.C20",
+            "Frozen world: a seeded history builds a poly/tet/hex mesh (with deferred-deleted entities and client properties) inside a private arena; then the arena and the executable's writable image (.data/.bss, full RELRO) are mprotect-ed read-only while 2..16 logical readers run programs of const queries (6 entity iterators, 26 circulators, boundary iterators, lookups, valence/boundary queries, definitions, positions, geometry, property reads through existing handles, tet/hex queries) decomposed into micro-steps; a seeded scheduler picks which reader performs its next micro-step, so many half-advanced iterators of different readers are alive at once. Oracle (a): any write to frozen memory during a const call traps (SIGSEGV) and is reported with the query in progress - a statement about every schedule, since a data race needs a write; C++11 guarded static initialisation is exempt, and memory allocated inside such an initialiser is taken from the arena and frozen afterwards. Oracle (b): each reader's observation log under the interleaving equals its log when run alone.",
+            "Plain (non-sanitizer) build, one process per run. A const function publishing freshly allocated heap memory only through foreign DSOs' data would escape (a) and be seen by (b) only at micro-step granularity. No real threads: TSan would see nothing under a serialising scheduler."),
 }
 NOT_YET = {
-    "C20": "check not built yet in this round (planned: FROZEN world)",
 }
 NA = {"C19": "pure functions of numeric input (vector algebra, geometric formulas): no state, schedule, clock, I/O fault or interleaving exists for a simulator to control; input generation under another name would not be this technique"}
 
@@ -107,6 +109,6 @@ def main():
     print("MANIFEST.json:", len(m["checks"]), "checks,", len(m["not_applicable"]), "not applicable")
 
 
-TECHS = {"C18": "deterministic simulation with fault injection: per-image fault enumeration (truncation, field boundary values, chunk reorder, stream failure at every position) classified by an independent decoder", "C07": "deterministic simulation with fault injection: seeded stored-byte, token and allocator faults into the readers under sanitizers and a step clock", "C06": "deterministic simulation: checkpoint/restart client over simulated storage with an independent codec as oracle and re-encoder"}
+TECHS = {"C20": "deterministic simulation: seeded micro-step interleaving of reader tasks over a write-protected (mprotect) mesh arena and program image", "C18": "deterministic simulation with fault injection: per-image fault enumeration (truncation, field boundary values, chunk reorder, stream failure at every position) classified by an independent decoder", "C07": "deterministic simulation with fault injection: seeded stored-byte, token and allocator faults into the readers under sanitizers and a step clock", "C06": "deterministic simulation: checkpoint/restart client over simulated storage with an independent codec as oracle and re-encoder"}
 if __name__ == "__main__":
     main()
